@@ -14,6 +14,11 @@ A case is a flowsheet:
     psort e=3,4 ( u1 ( u0 u2 r5 ) )   probe: build this Network from the real units and call .sort(ends)
     pdfs 4 e=3 u=0,1,2     probe: find_paths_with_and_without_recycle(stream 4, ends, units) on the real objects
 (stream ids: the streams of the `edge` lines in order, then the remaining ports unit by unit, inlets first)
+    rewire                 starts another round on the SAME unit and stream objects: the `edge` / `order` lines that
+                           follow describe the new connectivity; the adapter empties every port and re-pipes the
+                           existing stream objects (a stream keeps its role — product, feed, internal, same source
+                           port — wherever possible, so the end streams handed to Network.sort stay the same objects),
+                           then calls Network.from_units again.  Every round is compared and judged like the first.
 
 What is compared with the model (one driver line each, captured by wrapping the real
 functions at run time): `sort_feeds_big_to_small`, every call of
@@ -27,7 +32,8 @@ from harness.core import Case, ImplResult
 
 PID = 'C19'
 LEAN_MODULES = ['ThermoVerif.Props.C19']
-RULE = ('connected flowsheets of 2-10 units with 1-3 inlet and outlet ports each, several feeds (with different '
+RULE = ('histories of 1-3 rounds on the same unit and stream objects (build, re-pipe, build again: two units of equal '
+        'ports swapped, a stream end moved, a stream added or removed); each round: connected flowsheets of 2-10 units with 1-3 inlet and outlet ports each, several feeds (with different '
         'F_mass) and products, 0-3 back-edges such that every unit still reaches a product, handed to '
         'Network.from_units in every / sampled orders; exhaustive part: every connected simple DAG on <= 4 (quick) / '
         '5 (thorough) units with in/out degree <= 3 in every unit order; a case is non-trivial when it has at least one '
@@ -157,8 +163,8 @@ def setup():
 
 
 def budget(tier):
-    return {'quick': dict(seconds=55, cases=16000, shrink_s=15, search_s=5),
-            'thorough': dict(seconds=420, cases=400000, shrink_s=40, search_s=20)}[tier]
+    return {'quick': dict(seconds=55, cases=10000, shrink_s=15, search_s=5),
+            'thorough': dict(seconds=420, cases=250000, shrink_s=40, search_s=20)}[tier]
 
 
 # --------------------------------------------------------------------------
@@ -172,35 +178,54 @@ def ucls(ni, no):
     return CLASSES[(ni, no)]
 
 
-def parse_case(ops):
-    shape, edges, fmass, order = [], [], {}, None
-    for line in ops:
-        if line.startswith('p'): continue
-        t = line.split()
-        if t[0] == 'units':
-            shape = [tuple(int(x) for x in w.split(':')) for w in t[1:]]
-        elif t[0] == 'edge':
-            a, b = (tuple(int(x) for x in w.split('.')) for w in t[1:3])
-            edges.append((a, b))
-        elif t[0] == 'fmass':
-            fmass[tuple(int(x) for x in t[1].split('.'))] = int(t[2])
-        elif t[0] == 'order':
-            order = [int(x) for x in t[1].split(',')]
+def clean_edges(shape, edges):
+    """keep only well-formed, non-conflicting edges (a shrunk case may have lost lines)"""
     n = len(shape)
-    # keep only well-formed, non-conflicting edges (a shrunk case may have lost its `units` line)
     used_o, used_i, good = set(), set(), []
     for (a, b) in edges:
         if a[0] < n and b[0] < n and a[1] < shape[a[0]][1] and b[1] < shape[b[0]][0] and a not in used_o and b not in used_i:
             used_o.add(a); used_i.add(b); good.append((a, b))
-    if order is None or sorted(order) != list(range(n)): order = list(range(n))
-    return shape, good, fmass, order
+    return good
 
 
-def make_case(shape, edges, fmass, order):
+def parse_case(ops):
+    """→ shape, fmass, rounds = [(edges, order, probe lines)]"""
+    shape, fmass = [], {}
+    raw = [[[], None, []]]
+    for line in ops:
+        t = line.split()
+        if t[0] == 'units':
+            shape = [tuple(int(x) for x in w.split(':')) for w in t[1:]]
+        elif t[0] == 'rewire':
+            raw.append([[], None, []])
+        elif t[0] == 'edge':
+            a, b = (tuple(int(x) for x in w.split('.')) for w in t[1:3])
+            raw[-1][0].append((a, b))
+        elif t[0] == 'fmass':
+            fmass[tuple(int(x) for x in t[1].split('.'))] = int(t[2])
+        elif t[0] == 'order':
+            raw[-1][1] = [int(x) for x in t[1].split(',')]
+        elif t[0] in ('psort', 'pdfs'):
+            raw[-1][2].append(line)
+    n = len(shape)
+    rounds = []
+    for edges, order, probes in raw:
+        if order is None or sorted(order) != list(range(n)): order = list(range(n))
+        rounds.append((clean_edges(shape, edges), order, probes))
+    return shape, fmass, rounds
+
+
+def round_ops(edges, order, probes=()):
+    return [f'edge {a[0]}.{a[1]} {b[0]}.{b[1]}' for a, b in edges] + list(probes) + ['order ' + ','.join(map(str, order))]
+
+
+def make_case(shape, edges, fmass, order, more_rounds=(), probes=()):
     ops = ['units ' + ' '.join(f'{a}:{b}' for a, b in shape)]
-    ops += [f'edge {a[0]}.{a[1]} {b[0]}.{b[1]}' for a, b in edges]
     ops += [f'fmass {k[0]}.{k[1]} {v}' for k, v in sorted(fmass.items()) if v]
-    ops.append('order ' + ','.join(map(str, order)))
+    ops += round_ops(edges, order, probes)
+    for e, o in more_rounds:
+        ops.append('rewire')
+        ops += round_ops(e, o)
     return Case(ops, {})
 
 
@@ -221,6 +246,55 @@ def build(shape, edges, fmass):
         if u < len(units) and p < shape[u][0] and (u, p) not in inmap:
             units[u].ins[p].F_mass = v
     return units, streams
+
+
+def rewire(units, streams, shape, prev_edges, edges):
+    """Re-pipe the SAME unit objects to the connectivity `edges`, re-using the existing stream objects:
+    a stream keeps its role (internal stream leaving the same outlet port, product, feed) wherever possible."""
+    prev_src = {a for a, _ in prev_edges}; prev_snk = {b for _, b in prev_edges}
+    out_at = {(u, p): units[u]._outs[p] for u, (ni, no) in enumerate(shape) for p in range(no)}
+    in_at = {(u, p): units[u]._ins[p] for u, (ni, no) in enumerate(shape) for p in range(ni)}
+    real = lambda x: isinstance(x, net.AbstractStream)
+    internal = [out_at[a] for a, _ in prev_edges if real(out_at[a])]
+    products = [x for port, x in out_at.items() if port not in prev_src and real(x)]
+    feeds = [x for port, x in in_at.items() if port not in prev_snk and real(x)]
+    used = set()
+
+    def take(cands):
+        for x in cands:
+            if x is not None and real(x) and id(x) not in used:
+                used.add(id(x)); return x
+        return None
+    src = {a for a, _ in edges}; snk = {b for _, b in edges}
+    prod_ports = [port for port in out_at if port not in src]
+    feed_ports = [port for port in in_at if port not in snk]
+    estream, pstream, fstream = {}, {}, {}
+    for e in edges:                                   # same outlet port, still internal
+        if e[0] in prev_src: estream[e] = take([out_at[e[0]]])
+    for port in prod_ports:                           # same port, still a product
+        if port not in prev_src: pstream[port] = take([out_at[port]])
+    for port in feed_ports:
+        if port not in prev_snk: fstream[port] = take([in_at[port]])
+    for e in edges:
+        if estream.get(e) is None: estream[e] = take(internal)
+    for port in prod_ports:
+        if pstream.get(port) is None: pstream[port] = take(products)
+    for port in feed_ports:
+        if fstream.get(port) is None: fstream[port] = take(feeds)
+
+    def new():
+        x = VStream(None); x.F_mass = 0; x.n = len(streams); streams.append(x); return x
+    pool = internal + products + feeds
+    for d, keys in ((estream, edges), (pstream, prod_ports), (fstream, feed_ports)):
+        for k in keys:
+            if d.get(k) is None: d[k] = take(pool) or new()
+    for u in units:
+        u.ins.empty(); u.outs.empty()
+    for (a, b), x in estream.items():
+        units[a[0]].outs[a[1]] = x
+        units[b[0]].ins[b[1]] = x
+    for (u, p), x in pstream.items(): units[u].outs[p] = x
+    for (u, p), x in fstream.items(): units[u].ins[p] = x
 
 
 def graph_line(units, streams):
@@ -356,30 +430,26 @@ def slug(s):
     return re.sub(r'[^A-Za-z0-9]+', '-', s).strip('-')[:60]
 
 
-def run_impl(case: Case) -> ImplResult:
+def run_round(rnd, rec, units, streams, shape, edges, order, probes, failures, tags):
+    """one Network.from_units on the current connectivity of the real objects"""
     global REC
-    shape, edges, fmass, order = parse_case(case.ops)
     n = len(shape)
-    if n == 0:
-        return ImplResult(model_in=[], outs=[], failures=[], tags=['empty'], nontrivial=None)
-    units, streams = build(shape, edges, fmass)
-    rec = Recorder(units)
+    where = '' if rnd == 0 else f' (round {rnd}: the same units after re-piping)'
     rec.lines.append((graph_line(units, streams), 'ok'))
-    failures, tags = [], []
     inq = in_quantifier(shape, edges)
     nw, exc = None, None
     REC = rec
     try:
         with warnings.catch_warnings():
             warnings.simplefilter('ignore')
-            for line in case.ops:
-                if line.startswith('p'): run_probe(line, units, streams, rec)
+            for line in probes: run_probe(line, units, streams, rec)
             nw = net.Network.from_units([units[i] for i in order])
     except Exception as e:      # the property promises a path: an exception is a failure of it
         exc = e
     finally:
         REC = None
     last = len(rec.lines)
+    fails = []
     if nw is not None:
         verdict, cyclic = check_network(units, nw)
         R = nw.get_all_recycles()
@@ -389,7 +459,7 @@ def run_impl(case: Case) -> ImplResult:
         if any(isinstance(i, net.Network) for i in nw.path): tags.append('result:nested')
         if verdict != 'valid':
             sig = f'{kind}:{verdict}'
-            what = f'Network.from_units on a {kind} flowsheet of {n} units: checker verdict `{verdict}`'
+            what = f'Network.from_units on a {kind} flowsheet of {n} units{where}: checker verdict `{verdict}`'
             if verdict == 'units':
                 flat = set(flatten(nw.path))
                 missing = {k for k, u in enumerate(units) if u not in flat}
@@ -399,23 +469,39 @@ def run_impl(case: Case) -> ImplResult:
                     what += f'; units {sorted(missing)} are missing from the path (no feed reaches them)'
                 else:
                     what += f'; missing units {sorted(missing)}, foreign items {len(extra)}'
-            failures.append({'signature': sig, 'op_index': last, 'what': what + f'; path={" ".join(rec.tokens(nw))}'})
+            fails.append({'signature': sig, 'op_index': last, 'what': what + f'; path={" ".join(rec.tokens(nw))}'})
     else:
         edges_r = real_edges(units)
         rm = reach_map(units, edges_r)
         kind = 'cyclic' if any(u in rm[u] for u in units) else 'acyclic'
         tags.append(kind); tags.append(f'{kind}:raises')
-        failures.append({'signature': f'{kind}:raises:{type(exc).__name__}:{slug(str(exc))}', 'op_index': last,
-                         'what': f'Network.from_units raised {type(exc).__name__}({str(exc)[:80]!r}) on a {kind} '
-                                 f'flowsheet of {n} units'})
-    if not inq:
-        failures = []
-        tags.append('outside-quantifier')
-    tags.append(f'n={n}')
+        fails.append({'signature': f'{kind}:raises:{type(exc).__name__}:{slug(str(exc))}', 'op_index': last,
+                      'what': f'Network.from_units raised {type(exc).__name__}({str(exc)[:80]!r}) on a {kind} '
+                              f'flowsheet of {n} units{where}'})
+    if inq: failures.extend(fails)
+    else: tags.append('outside-quantifier')
+
+
+def run_impl(case: Case) -> ImplResult:
+    shape, fmass, rounds = parse_case(case.ops)
+    n = len(shape)
+    if n == 0:
+        return ImplResult(model_in=[], outs=[], failures=[], tags=['empty'], nontrivial=None)
+    units, streams = build(shape, rounds[0][0], fmass)
+    rec = Recorder(units)
+    failures, tags = [], []
+    prev = None
+    for rnd, (edges, order, probes) in enumerate(rounds):
+        if rnd:
+            rewire(units, streams, shape, prev, edges)
+            tags.append('rewired')
+        run_round(rnd, rec, units, streams, shape, edges, order, probes, failures, tags)
+        prev = edges
+    tags.append(f'n={n}'); tags.append(f'rounds={len(rounds)}')
     tags.extend(sorted(rec.tags))
-    key = (tuple(shape), tuple(edges), tuple(sorted(fmass.items())), tuple(order))
+    key = (tuple(shape), tuple(sorted(fmass.items())), tuple((tuple(e), tuple(o)) for e, o, _ in rounds))
     return ImplResult(model_in=[l for l, _ in rec.lines], outs=[o for _, o in rec.lines], failures=failures,
-                      tags=tags, nontrivial=(key if edges else None))
+                      tags=tags, nontrivial=(key if any(e for e, _, _ in rounds) else None))
 
 
 def disagree_signature(case, res, first):
@@ -501,6 +587,41 @@ def gen_probes(rng, shape, edges):
     return out
 
 
+def swap_units(edges, a, b):
+    m = {a: b, b: a}
+    return [((m.get(x[0], x[0]), x[1]), (m.get(y[0], y[0]), y[1])) for x, y in edges]
+
+
+def mutate_edges(rng, shape, edges):
+    """another connectivity of the same units: swap two units of equal shape, move one end of a stream to a free
+    port, add a stream (possibly a back-edge), remove one; None if nothing inside the quantifier was found"""
+    n = len(shape)
+    for _ in range(12):
+        es = list(edges)
+        for _ in range(rng.choice([1, 1, 2])):
+            kind = rng.choice(['swap', 'swap', 'swap', 'move', 'move', 'add', 'remove'])
+            free_out = [(u, p) for u in range(n) for p in range(shape[u][1]) if (u, p) not in {a for a, _ in es}]
+            free_in = [(u, p) for u in range(n) for p in range(shape[u][0]) if (u, p) not in {b for _, b in es}]
+            if kind == 'swap':
+                pairs = [(a, b) for a in range(n) for b in range(a + 1, n) if shape[a] == shape[b]]
+                if pairs: es = swap_units(es, *rng.choice(pairs))
+            elif kind == 'move' and es:
+                k = rng.randrange(len(es)); a, b = es[k]
+                if rng.random() < 0.5 and free_in: es[k] = (a, rng.choice(free_in))
+                elif free_out: es[k] = (rng.choice(free_out), b)
+            elif kind == 'add' and free_out and free_in:
+                a, b = rng.choice(free_out), rng.choice(free_in)
+                if a[0] != b[0]: es.append((a, b))
+            elif kind == 'remove' and len(es) > 1:
+                es.pop(rng.randrange(len(es)))
+        es = [e for e in es if e[0][0] != e[1][0]]
+        if sorted(es) != sorted(edges) and clean_edges(shape, es) == es and in_quantifier(shape, es):
+            # at most 3 streams against a topological order of the rest is not checked here: the generator
+            # only ever adds one stream per step, so the count stays small
+            return es
+    return None
+
+
 def orders(rng, n, k):
     """k distinct orders of n units (all of them if k >= n!)"""
     if math.factorial(n) <= k:
@@ -533,10 +654,15 @@ def generate(rng, tier, index, nworkers):
     k = 0
     for n in range(2, nmax + 1):
         for shape, edges in small_dags(n):
+            pairs = [(a, b) for a in range(n) for b in range(a + 1, n) if shape[a] == shape[b]]
             for order in itertools.permutations(range(n)):
                 k += 1
                 if k % nworkers == index:
-                    yield make_case(shape, edges, {}, list(order))
+                    more = []
+                    if pairs:       # second round: the same units with two of them (equal ports) swapped
+                        es = swap_units(edges, *pairs[k % len(pairs)])
+                        if in_quantifier(shape, es): more = [(es, list(order))]
+                    yield make_case(shape, edges, {}, list(order), more)
     # ---- random part
     share = max(1, b['cases'] // nworkers)
     produced = 0
@@ -553,9 +679,15 @@ def generate(rng, tier, index, nworkers):
         else:
             os_ = orders(rng, n, 3)
         for o in os_:
-            c = make_case(shape, edges, fmass, o)
-            c.ops[-1:-1] = gen_probes(rng, shape, edges)
-            yield c
+            more, cur = [], edges
+            if rng.random() < 0.6:
+                for _ in range(rng.choice([1, 1, 2])):
+                    nxt = mutate_edges(rng, shape, cur)
+                    if nxt is None: break
+                    o2 = list(o)
+                    if rng.random() < 0.5: rng.shuffle(o2)
+                    more.append((nxt, o2)); cur = nxt
+            yield make_case(shape, edges, fmass, o, more, gen_probes(rng, shape, edges))
             produced += 1
 
 
@@ -577,17 +709,26 @@ def corpus():
         # findings (see fixes_proposed/C19-*.md): join order of recycle networks / a loop that no feed reaches
         C('units 2:1 2:2 3:3', 'edge 0.0 1.1', 'edge 1.0 2.0', 'edge 2.0 1.0', 'edge 1.1 0.1', 'order 2,0,1'),
         C('units 1:1 1:2', 'edge 0.0 1.0', 'edge 1.1 0.0', 'order 0,1'),
+        # histories on the same objects: a train A → B → C, then B and C swapped, then swapped back
+        C('units 1:1 1:1 1:1', 'edge 0.0 1.0', 'edge 1.0 2.0', 'order 0,1,2',
+          'rewire', 'edge 0.0 2.0', 'edge 2.0 1.0', 'order 0,1,2',
+          'rewire', 'edge 0.0 1.0', 'edge 1.0 2.0', 'order 2,1,0'),
+        # a loop is closed and opened again on the same units
+        C('units 2:1 1:2', 'edge 0.0 1.0', 'order 0,1',
+          'rewire', 'edge 0.0 1.0', 'edge 1.1 0.1', 'order 1,0',
+          'rewire', 'edge 0.0 1.0', 'order 1,0'),
     ]
 
 
 def search(case, rng, budget_s):
-    """near a disagreement: other unit orders of the same flowsheet, looking for an oracle failure"""
+    """near a disagreement: other unit orders of the same history, looking for an oracle failure"""
     import time
     t0 = time.time()
-    shape, edges, fmass, order = parse_case(case.ops)
+    shape, fmass, rounds = parse_case(case.ops)
     n = len(shape)
     while n and time.time() - t0 < budget_s:
-        o = list(range(n)); rng.shuffle(o)
-        c = make_case(shape, edges, fmass, o)
+        def o():
+            x = list(range(n)); rng.shuffle(x); return x
+        c = make_case(shape, rounds[0][0], fmass, o(), [(e, o()) for e, _, _ in rounds[1:]], rounds[0][2])
         if run_impl(c).failures: return c
     return None
